@@ -145,14 +145,57 @@ def check_subst(tier, seed):
                   len(jobs), fails, exhaustive=True, samples=[dict(model=str(models[0]))])
 
 
+PLACEMENTS = ('element-anonymous', 'global-type', 'local-in-global-type', 'local-in-named-group', 'local-in-group-of-group', 'extension-of-global-type')
+
+
+def placement_schema(m, where):
+    body = cm.xsd(m); XS_ = cm.XS
+    if where == 'element-anonymous': return f'<xs:schema {XS_}><xs:element name="r"><xs:complexType>{body}</xs:complexType></xs:element></xs:schema>'
+    if where == 'global-type': return f'<xs:schema {XS_}><xs:complexType name="T">{body}</xs:complexType><xs:element name="r" type="T"/></xs:schema>'
+    inner = f'<xs:element name="inner"><xs:complexType>{body}</xs:complexType></xs:element>'
+    if where == 'local-in-global-type': return f'<xs:schema {XS_}><xs:complexType name="T"><xs:sequence>{inner}</xs:sequence></xs:complexType><xs:element name="r" type="T"/></xs:schema>'
+    if where == 'local-in-named-group':
+        return f'<xs:schema {XS_}><xs:group name="G"><xs:sequence>{inner}</xs:sequence></xs:group><xs:element name="r"><xs:complexType><xs:group ref="G"/></xs:complexType></xs:element></xs:schema>'
+    if where == 'local-in-group-of-group':
+        return (f'<xs:schema {XS_}><xs:group name="G"><xs:sequence>{inner}</xs:sequence></xs:group><xs:group name="H"><xs:sequence><xs:group ref="G" minOccurs="0"/></xs:sequence></xs:group>'
+                f'<xs:element name="r"><xs:complexType><xs:group ref="H"/></xs:complexType></xs:element></xs:schema>')
+    return (f'<xs:schema {XS_}><xs:complexType name="B"><xs:sequence/></xs:complexType><xs:complexType name="T"><xs:complexContent><xs:extension base="B">{body}</xs:extension></xs:complexContent></xs:complexType>'
+            f'<xs:element name="r" type="T"/></xs:schema>')
+
+
+def eval_placement(args):
+    """whether a content model is refused does not depend on where the complex type that holds it is declared"""
+    m, ver = args
+    import xmlschema
+    out = {}
+    for where in PLACEMENTS:
+        try: _cls(ver)(placement_schema(m, where)); out[where] = 'accepted'
+        except xmlschema.XMLSchemaModelError: out[where] = 'model-error'
+        except xmlschema.XMLSchemaException as e: out[where] = 'other:' + type(e).__name__
+    return dict(model=m, name=cm.show(m), ver=ver, outcomes=out) if len(set(out.values())) > 1 else None
+
+
+def check_placement(tier, seed):
+    import random as _r
+    models = list(cm.variant_models()); _r.Random(seed).shuffle(models)
+    sel = models[:(600 if tier == 'thorough' else 60)]
+    jobs = [(m, ver) for m in sel for ver in ('1.0', '1.1')]
+    res = pmap(eval_placement, jobs, chunk=2)
+    fails = [dict(case=dict(placement=True, model=r['model'], version=r['ver']), model=r['name'], observed=r['outcomes'], required='the same verdict of the builder wherever the type is declared') for r in res if r]
+    return result('C15.placement_independence', f'{len(sel)} seeded models x {len(PLACEMENTS)} places for the complex type that holds the model (anonymous type of a global element, global type, local element of a global type / of a named group / of a group referenced by a group, extension) x 2 classes',
+                  len(jobs) * len(PLACEMENTS), fails, samples=[dict(model=cm.show(sel[0]))], distinct=len(jobs))
+
+
 def run(tier, seed, open_findings):
     known = load_instances('C15_instances.json')
     return [check(list(cm.two_level_models()), tier, seed, known, 'C15.two_level_models', 4, open_findings),
             check(list(cm.two_level_models_rev()), tier, seed, known, 'C15.two_level_models_rev', 4, open_findings),
-            check(list(cm.variant_models()), tier, seed, known, 'C15.variant_models', 1, open_findings), check_edc(tier, seed), check_subst(tier, seed)]
+            check(list(cm.variant_models()), tier, seed, known, 'C15.variant_models', 1, open_findings), check_edc(tier, seed), check_subst(tier, seed), check_placement(tier, seed)]
 
 
 def replay(check_name, case):
+    if case.get('placement'):
+        r = eval_placement((_tuplify(case['model']), case['version'])); return dict(ok=r is None, observed=r and r['outcomes'], required='same verdict in every place')
     if case.get('subst'):
         k, leaves, o = case['model']; r = subst_eval(((k, [(n, tuple(oc)) for n, oc in leaves], tuple(o)), case['version']))
         return dict(ok=r is None, observed=r, required='model error <=> not deterministic')
